@@ -113,6 +113,7 @@ type Run struct {
 	st   *Stores
 
 	mu        sync.Mutex
+	late      map[string]*lateListener
 	committed *Model
 	btx       *btxState
 	nbtx      int
@@ -477,6 +478,13 @@ func (r *Run) onRw(ev string) {
 					continue
 				}
 				r.ledger.Expect(a.events)
+				// a listener registered while an earlier or this very transaction was in flight is registered when
+				// this change commits: it is owed the event like every other listener of the store
+				for _, l := range r.late {
+					if l.btx <= b.id {
+						r.ledger.ExpectLate(l, a.events)
+					}
+				}
 				r.ledger.mu.Lock()
 				for _, tag := range a.commits {
 					r.ledger.expCommit[tag]++
@@ -534,7 +542,7 @@ func (r *Run) onSeam(site string, key []byte) error {
 	r.mu.Unlock()
 	if hit != nil {
 		r.bump(&r.res.FaultsHit, "F6")
-		return fmt.Errorf("dsim: injected storage error at %s(%q)", site, key)
+		return flavoured(hit.Flavour, fmt.Sprintf("dsim: injected storage error at %s(%q)", site, key))
 	}
 	return nil
 }
@@ -547,7 +555,7 @@ func (r *Run) veto(store, change, id string, typed bool) error {
 		r.mu.Unlock()
 		return nil
 	}
-	var hit bool
+	var hit *Fault
 	for i := range a.tr.plan.Faults {
 		f := &a.tr.plan.Faults[i]
 		if f.Kind != "F3" || a.usedF[i] {
@@ -555,20 +563,33 @@ func (r *Run) veto(store, change, id string, typed bool) error {
 		}
 		if f.Store == store && f.Change == change && (f.Id == "" || f.Id == id) && f.Typed == typed {
 			a.usedF[i] = true
-			hit = true
+			hit = f
 			break
 		}
 	}
-	if hit {
+	if hit != nil {
 		a.firedOp = "F3"
 		a.mustFail = "F3"
 	}
 	r.mu.Unlock()
-	if hit {
+	if hit != nil {
 		r.bump(&r.res.FaultsHit, "F3")
-		return fmt.Errorf("dsim: injected constraint veto (%s %s %q)", store, change, id)
+		return flavoured(hit.Flavour, fmt.Sprintf("dsim: injected constraint veto (%s %s %q)", store, change, id))
 	}
 	return nil
+}
+
+// flavoured builds the injected error of an F3 / F6 fault: plain, or one of the library's own error types.
+func flavoured(flavour, msg string) error {
+	switch flavour {
+	case "notfound":
+		return fmt.Errorf("%s: %w", msg, boltz.NewNotFoundError("injected", "id", "dsim-injected"))
+	case "dup":
+		return fmt.Errorf("%s: %w", msg, &boltz.UniqueIndexDuplicateError{Field: "injected", Value: "dsim-injected", EntityType: "injected"})
+	case "refexists":
+		return fmt.Errorf("%s: %w", msg, boltz.NewReferenceByIdError("injected", "dsim-injected", "injected", "dsim-injected", "injected"))
+	}
+	return errors.New(msg)
 }
 
 func (r *Run) recordEvent(listener, store, typ string, e boltz.Entity) {
@@ -649,8 +670,8 @@ func (r *Run) onQuiescent() {
 				found = append(found, *v)
 			}
 		}
-		found = append(found, Mirror(tx, r.st)...)
-		found = append(found, CompareModel(tx, r.st, committed, U.ByStore())...)
+		found = append(found, guardOracle("mirror", []string{"C03", "C04", "C05"}, func() []Violation { return Mirror(tx, r.st) })...)
+		found = append(found, guardOracle("model", []string{"C03", "C04", "C05", "C06", "C15", "C16"}, func() []Violation { return CompareModel(tx, r.st, committed, U.ByStore()) })...)
 		hadChild := map[string]bool{}
 		for _, ref := range trace {
 			if strings.HasPrefix(ref.Store, "child:") {
@@ -662,6 +683,9 @@ func (r *Run) onQuiescent() {
 				continue
 			}
 			if committed.snapOf(ref.Store, ref.Id) == "" {
+				if sharedId(ref.Id) && committed.idInAnyStore(ref.Id) {
+					continue // another store's entity legitimately carries the same id: "occurs nowhere" is not expected
+				}
 				if ref.Store == StPeople && hadChild[ref.Id] {
 					found = append(found, NoTrace(tx, ref.Id, "C15")...) // both parts, and everything the parent's constraints and links kept
 				} else {
@@ -670,7 +694,7 @@ func (r *Run) onQuiescent() {
 			}
 		}
 		if r.opt.AllViews || r.plan.Prop == "C15" {
-			found = append(found, ChildViews(tx, r.st, committed, U.Names, U.Roles)...)
+			found = append(found, guardOracle("views", []string{"C15"}, func() []Violation { return ChildViews(tx, r.st, committed, U.Names, U.Roles) })...)
 		}
 		return nil
 	})
@@ -773,6 +797,14 @@ func (r *Run) execWriteTx(t *Task, idx int, tx *TxPlan) {
 	}
 	t.Yield("tx.begin", need)
 	ctx := boltz.NewMutateContext(context.Background())
+	callCtx := ctx
+	switch tx.Ctx {
+	case "nil":
+		callCtx = nil
+	case "sys":
+		ctx = ctx.GetSystemContext()
+		callCtx = ctx
+	}
 	tr := &txRun{id: fmt.Sprintf("%s.%d", t.Name, idx), task: t, plan: tx, ctx: ctx}
 	r.mu.Lock()
 	r.ctxTx[ctx] = tr
@@ -813,9 +845,9 @@ func (r *Run) execWriteTx(t *Task, idx int, tx *TxPlan) {
 					r.s.BatchWait(-1)
 				}
 			}
-			err = r.db.Batch(ctx, body)
+			err = r.db.Batch(callCtx, body)
 		} else {
-			err = r.db.Update(ctx, body)
+			err = r.db.Update(callCtx, body)
 		}
 	}()
 	retSeq := r.s.NextSeq()
@@ -846,6 +878,7 @@ func (r *Run) body(tr *txRun, ctx boltz.MutateContext) (err error) {
 		r.s.HarnessError("body running without a write transaction")
 		panic(abortSig{})
 	}
+	r.ctxTx[ctx] = tr // (the context the library made when the caller passed none)
 	a := &attempt{tr: tr, btx: b, running: true, seen: map[string]int{}, touched: map[string]bool{}, usedF: map[int]bool{}}
 	b.attempts = append(b.attempts, a)
 	tr.attempts = append(tr.attempts, a)
@@ -970,12 +1003,20 @@ func (r *Run) execOp(a *attempt, ctx boltz.MutateContext, i int, op Op) error {
 	a.firedOp = ""
 	r.res.Ops++
 	r.mu.Unlock()
+	if a.tr.plan.Ctx == "sys" {
+		op.Sys = true // the whole transaction runs on a system context
+	}
+	if op.K == "listen" {
+		r.lateListen(fmt.Sprintf("L11:%s#%d", a.tr.id, i), op, b.id)
+		return nil
+	}
 	exp := b.working.Apply(op, now)
 	if exp.Skipped {
 		r.probe("skipped:" + exp.Why)
 		return nil
 	}
-	tag := fmt.Sprintf("%s#%d", a.tr.id, i)
+	// (the attempt number tells an action registered by an abandoned Batch attempt from the committed attempt's)
+	tag := fmt.Sprintf("%s#%d@%d", a.tr.id, i, len(a.tr.attempts))
 	switch op.K {
 	case "preCommit":
 		ctx.AddPreCommitAction(func(boltz.MutateContext) error {
